@@ -42,8 +42,22 @@ def coq_stage(prop, tier):
         for f in sorted(os.listdir(d)):
             if f.endswith(".v"):
                 txt = strip_comments(open(os.path.join(d, f)).read())
+                # Variable / Hypothesis are allowed inside a Section only: track the nesting
+                events = [(m.start(), "open") for m in re.finditer(r"(?m)^\s*Section\s+\w+\s*\.", txt)] + \
+                         [(m.start(), "close") for m in re.finditer(r"(?m)^\s*End\s+\w+\s*\.", txt)]
+                events.sort()
+                def depth_at(pos):
+                    dpt = 0
+                    for p_, k in events:
+                        if p_ > pos:
+                            break
+                        dpt += 1 if k == "open" else -1
+                    return dpt
                 for m in FORBIDDEN.finditer(txt):
-                    bad.append(f"{sub}/{f}: {m.group(0)}")
+                    w = m.group(0)
+                    if w in ("Variable", "Variables", "Hypothesis", "Hypotheses") and depth_at(m.start()) > 0:
+                        continue
+                    bad.append(f"{sub}/{f}: {w}")
     info["audit"] = bad
     pf = os.path.join(COQ, "props", prop + ".v")
     if not os.path.exists(pf):
